@@ -97,6 +97,26 @@ def run_rtcheck(function, bound, seeds=None, only=None, max_cases=0, time_limit=
             os.unlink(sf)
 
 
+_trace_witness = []
+
+
+def parser_trace_witness():
+    """Replay for refuted parser-level obligations: the first document (over line-kind sequences up to length 4) on
+    which the real parser departs from the reference transducer / the delivery discipline."""
+    if not _trace_witness:
+        env = dict(os.environ)
+        env["VERIF_REPO"] = REPO
+        try:
+            p = subprocess.run([REPO_PY, os.path.join(VERIF, "pyvc", "enum_parser_traces.py"), "--bound", "4",
+                                "--max-fail", "1", "--time-limit", "240"], capture_output=True, text=True, env=env, timeout=400)
+            line = [l for l in p.stdout.splitlines() if l.startswith("{")]
+            w = json.loads(line[-1])["results"][0].get("witness") if line else None
+            _trace_witness.append(w[0] if w else None)
+        except Exception:
+            _trace_witness.append(None)
+    return _trace_witness[0]
+
+
 def seeds_from_model(model):
     seeds = []
     if isinstance(model, dict):
@@ -183,9 +203,11 @@ def main(argv):
         f_results = finite.run(pid, prog, reg, tier, REPO)
     except Exception as e:
         errors.append(f"finite obligations crashed: {type(e).__name__}: {e} {traceback.format_exc()[-600:]}")
+    fb_results = [r for r in f_results if r.get("bounded")]
+    f_results = [r for r in f_results if not r.get("bounded")]
     f_obl = len(f_results)
     f_dis = sum(1 for r in f_results if r["ok"])
-    for r in f_results:
+    for r in f_results + fb_results:
         if not r["ok"]:
             if r.get("checker_error"):
                 errors.append(f"{r['name']}: {r.get('detail')}")
@@ -201,6 +223,9 @@ def main(argv):
                                                 60 if tier == "quick" else 600) for q in b_targets])
     b_cases = 0
     bounded = []
+    for r in fb_results:
+        b_cases += r.get("size") or 0
+        bounded.append({"function": r["name"], "cases": r.get("size"), "exhausted": r.get("exhaustive")})
     for r in b_results:
         if r.get("error"):
             if "no input generator" in r["error"]:
@@ -220,10 +245,13 @@ def main(argv):
     # ---------------- refuted P obligations -> replay on the real code
     for rep, o in refuted:
         seeds = seeds_from_model(o.get("model"))
-        r = run_rtcheck(rep["function"], bound + 1, seeds, pid, 200000, 120)
         witness = None
-        if r.get("failures"):
-            witness = r["failures"][0]
+        if rep["function"].startswith("gherkin.parser."):
+            witness = parser_trace_witness()
+        else:
+            r = run_rtcheck(rep["function"], bound + 1, seeds, pid, 200000, 120)
+            if r.get("failures"):
+                witness = r["failures"][0]
         violations.append({"obligation": o["name"], "kind": o["kind"], "detail": "refuted by " + str(o.get("backend")),
                            "model": o.get("model"), "goal": o.get("goal"), "witness": witness,
                            "input_found": witness is not None, "file": rep.get("file"), "line": o.get("lineno"),
